@@ -18,8 +18,8 @@ CONSTANTS
   FnOwn = 1
   BFn = 4
   EmitAllUpTo = 1
-  Sel = 40
-  CondSel = 6
+  Sel = 60
+  CondSel = 12
   KeepGoing = TRUE
 INVARIANT Inv
 CHECK_DEADLOCK FALSE
